@@ -213,7 +213,7 @@ class Ctx:
             raise RuntimeError('harness build failed (the working tree of /repo does not compile?):\n' + '\n'.join(errs[:10]) + '\n' + out[-1500:])
         return os.path.join(TARGET, 'release' if release else 'debug', 'dv')
 
-    def run_impl(self, cmd, requests, release=False, timeout=900, shards=8):
+    def run_impl(self, cmd, requests, release=False, timeout=900, shards=8, mem_gb=8):
         """Runs `dv <cmd>` on JSON requests (one per line) and returns the parsed JSON answers.
         A crash of the process (abort, stack overflow) is reported as {"crash": ...} for the request it died on."""
         exe = os.path.join(TARGET, 'release' if release else 'debug', 'dv')
@@ -229,8 +229,13 @@ class Ctx:
             res = []
             i = lo
             while i < hi:
+                # address-space limit per harness process: an evaluation that builds astronomically large values dies (reported as a crash
+                # of that request) instead of taking the machine down
+                def limit():
+                    import resource
+                    resource.setrlimit(resource.RLIMIT_AS, (mem_gb << 30, mem_gb << 30))
                 p = subprocess.run([exe] + cmd.split(), input='\n'.join(reqs[i:hi]) + '\n', stdout=subprocess.PIPE, stderr=subprocess.PIPE,
-                                   text=True, errors='replace', timeout=timeout)
+                                   text=True, errors='replace', timeout=timeout, preexec_fn=limit)
                 lines = [l for l in p.stdout.split('\n') if l.strip()]
                 for l in lines:
                     try:
